@@ -64,6 +64,102 @@ pub async fn recover_keys(objs: &Objects) -> Result<BTreeSet<String>, String> {
     Ok(keys)
 }
 
+impl C12 {
+    /// The pipeline `server_persistent` starts: `StreamingIntegration::start_workers` (delta sink channel, bridge
+    /// task, persistence actor owning the StreamingPersistence) fed through the `DeltaSinkSender`, store faults by
+    /// call index, a crash image around every store call, and `WorkerHandles::shutdown` at the end.
+    fn run_workers(&self, src: &mut Src, ctx: &RunCtx, plan: BTreeMap<u64, StoreFault>) -> RunReport {
+        use redis_sim::streaming::config::{CompactionConfig as CfgCompaction, StreamingConfig};
+        use redis_sim::streaming::integration::StreamingIntegration;
+        let mut rep = RunReport::default();
+        rep.probe("worker_pipeline_run");
+        let max_deltas = *src.pick(&[2usize, 1, 3, 1000]);
+        let tick_always = src.chance(1, 2); // flush interval 0: every bridge round sends a tick, and a non-empty buffer is due
+        let skew = *src.pick(&[0u64, 0, 5_000_000]); // the flush timer's clock runs fast (hook H4): time-triggered flushes
+        let graceful_faults_off = src.chance(3, 4);
+        // ops: 0 = push, 1 = let the pipeline run for a while
+        let raw = src.list(16, 7, 8, |s| s.weighted(&[3, 2]));
+        let mut next = 0u64;
+        let mut ops: Vec<(u64, u64)> = Vec::new();
+        for r in raw { if r == 0 { ops.push((0, next)); next += 1; } else { ops.push((1, 1 + src.below(3))); } }
+        let trace = ctx.trace;
+        rep.log(trace, || format!("worker pipeline: ops {:?} (0=push id, 1=settle n rounds), max_deltas={} tick_always={} timer skew={}ms faults {:?} faults-off-before-shutdown={}", ops, max_deltas, tick_always, skew, plan, graceful_faults_off));
+        let store = SimStore::new();
+        store.set_plan(plan.clone());
+        let st = store.clone();
+        let ops2 = ops.clone();
+        let seed = src.u64_any();
+        let (pushed, shutdown_done, err): (Vec<u64>, bool, Option<String>) = rt::block_on(seed, async move {
+            redis_sim::production::verif_hooks::clock::set_elapsed_skew(skew);
+            let cfg = StreamingConfig {
+                enabled: true, prefix: PREFIX.to_string(),
+                write_buffer: WriteBufferConfig { flush_interval: if tick_always { Duration::ZERO } else { Duration::from_secs(3600) }, max_size_bytes: 1 << 20, max_deltas, backpressure_threshold_bytes: 1 << 22, compression_enabled: false },
+                compaction: CfgCompaction { max_segments: 0, ..CfgCompaction::default() },
+                ..StreamingConfig::default()
+            };
+            let integ = StreamingIntegration::with_store(Arc::new(st.clone()), cfg, 1);
+            let (handles, sender) = match integ.start_workers().await { Ok(x) => x, Err(e) => return (Vec::new(), false, Some(e.to_string())) };
+            let mut pushed = Vec::new();
+            for (kind, arg) in &ops2 {
+                if *kind == 0 { if sender.send(upd(*arg)).is_ok() { pushed.push(*arg); } }
+                else { for _ in 0..*arg { tokio::time::sleep(Duration::from_millis(15)).await; } }
+            }
+            if graceful_faults_off { st.set_plan(BTreeMap::new()); }
+            let done = tokio::time::timeout(Duration::from_secs(600), handles.shutdown()).await.is_ok();
+            (pushed, done, None)
+        });
+        redis_sim::production::verif_hooks::clock::set_elapsed_skew(0);
+        let d = store.inner.lock().unwrap();
+        let (events, images, fired, final_objs) = (d.events.clone(), d.images.clone(), d.fired.clone(), d.objs.clone());
+        drop(d);
+        for (_, f) in &fired { rep.fault(f.name()); }
+        if trace { for e in &events { rep.trace.push(format!("store op={} {} {} len={} fault={:?} ok={}", e.op, e.kind.name(), e.key, e.len, e.fault, e.ok)); } }
+        let wl_fp = { let mut h = fnv(0xD0, format!("{:?}{}{}{}", ops, max_deltas, tick_always, skew).as_bytes()); for (c, f) in &fired { h = fnv(h, &c.to_le_bytes()); h = fnv(h, f.name().as_bytes()); } h };
+        rep.fingerprint = wl_fp;
+        rep.evals = 1;
+        if let Some(e) = err {
+            if plan.is_empty() { rep.violate("C12/worker/setup-failed", e); }
+            return rep;
+        }
+        if !shutdown_done { rep.violate("C12/worker/shutdown-hangs", format!("WorkerHandles::shutdown() did not return within 600 simulated seconds ({} updates pushed)", pushed.len())); return rep; }
+        // every crash image recovers, holds only written values, and never loses what an earlier image already held
+        let checks: Vec<Result<BTreeSet<String>, String>> = rt::block_on(mix(seed, 77), async { let mut out = Vec::new(); for img in images.iter() { out.push(recover_keys(&img.objects).await); } out });
+        let mut seen: BTreeSet<String> = BTreeSet::new();
+        for (i, res) in checks.into_iter().enumerate() {
+            let img = &images[i];
+            rep.evals += 1;
+            rep.fault("crash_between_or_during_store_calls");
+            match res {
+                Err(e) => { rep.violate(if img.phase == "during-put" { "C12/recovery-fails/crash-during-put" } else { "C12/recovery-fails/crash-between-ops" }, format!("worker pipeline, crash {} store op {}: recovery fails: {}", img.phase, img.op, e)); return rep; }
+                Ok(keys) => {
+                    if img.phase != "during-put" {
+                        if let Some(m) = seen.iter().find(|k| !keys.contains(*k)) { rep.violate("C12/worker/persisted-update-vanished", format!("worker pipeline: update {} was recoverable from the store as it was before op {} but no longer at a crash {} store op {} (recovered {:?})", m, img.op, img.phase, img.op, keys)); return rep; }
+                        if !keys.is_empty() { rep.probe("crash_after_confirmed_flush"); rep.sub_fps.push(fnv(wl_fp, &[i as u8, (i >> 8) as u8, 7])); }
+                        seen = keys;
+                    }
+                }
+            }
+        }
+        // graceful shutdown on a healthy store: everything handed to the sink is on the store
+        rep.evals += 1;
+        match rt::block_on(mix(seed, 78), async { recover_keys(&final_objs).await }) {
+            Err(e) => rep.violate("C12/recovery-fails/at-rest", format!("worker pipeline: after a graceful shutdown recovery fails: {}", e)),
+            Ok(keys) => {
+                if graceful_faults_off {
+                    rep.probe("graceful_shutdown_checked");
+                    if let Some(m) = pushed.iter().find(|id| !keys.contains(&format!("u{}", id))) {
+                        rep.violate("C12/worker/update-lost-at-graceful-shutdown", format!("worker pipeline: update u{} was handed to the delta sink, the store was healthy from before the shutdown on, WorkerHandles::shutdown() returned, and the update is not recoverable (pushed {:?}, recovered {:?}; store faults earlier in the run: {:?})", m, pushed, keys, fired.iter().map(|(c, f)| format!("op{}:{}", c, f.name())).collect::<Vec<_>>()));
+                    }
+                }
+            }
+        }
+        rep.nontrivial = !pushed.is_empty();
+        rep.sample = Some(json!({"mode": "worker pipeline", "ops": ops.iter().map(|(k, a)| if *k == 0 { format!("push u{}", a) } else { format!("settle {}", a) }).collect::<Vec<_>>(), "max_deltas": max_deltas, "tick_always": tick_always, "timer_skew_ms": skew,
+            "faults_fired": fired.iter().map(|(c, f)| format!("op{}:{}", c, f.name())).collect::<Vec<_>>(), "store_calls": events.iter().map(|e| e.kind.name()).collect::<Vec<_>>(), "crash_images": images.len()}));
+        rep
+    }
+}
+
 impl Property for C12 {
     fn id(&self) -> &'static str { "C12" }
     fn level(&self) -> &'static str { "fault_enumeration" }
@@ -73,7 +169,7 @@ impl Property for C12 {
     fn components_real(&self) -> Vec<&'static str> { vec!["streaming::persistence::StreamingPersistence::{push,flush}", "streaming::manifest::ManifestManager::{load_or_create,save}", "streaming::compaction::Compactor::compact", "streaming::recovery::RecoveryManager::recover", "streaming::segment::{SegmentWriter,SegmentReader}"] }
     fn components_stubbed(&self) -> Vec<&'static str> { vec!["ObjectStore -> SimStore (put not atomic, rename atomic, faults by call index)", "workers/timers not run: push, flush and compact are called directly in sequence"] }
     fn assumptions(&self) -> Vec<&'static str> { vec!["object-store contract: rename is atomic, put may leave any prefix, delete is atomic", "keys are unique per update so that compaction's keep-latest rule cannot legitimately drop one (C13 covers overwrites and tombstones)"] }
-    fn required_probes(&self) -> Vec<&'static str> { vec!["crash_after_confirmed_flush", "compaction_ran", "failed_flush_then_later_flush"] }
+    fn required_probes(&self) -> Vec<&'static str> { vec!["crash_after_confirmed_flush", "compaction_ran", "failed_flush_then_later_flush", "worker_pipeline_run", "graceful_shutdown_checked"] }
     fn runs(&self, tier: Tier) -> u64 { match tier { Tier::Quick => 8000, Tier::Thorough => 300000 } }
 
     fn derive(&self, tape: &[u64], rep: &RunReport, tier: Tier) -> Vec<Vec<u64>> {
@@ -111,6 +207,9 @@ impl Property for C12 {
         if nf >= 1 { plan.insert(f1.0, kind_of(f1.1)); }
         if nf >= 2 { plan.insert(f2.0, kind_of(f2.1)); }
         let max_per_compaction = *src.pick(&[5usize, 2, 3]);
+        // every sixth workload goes through the server's own pipeline instead of direct calls: delta sink ->
+        // bridge task -> persistence actor (count-, tick- and shutdown-triggered flushes), then a graceful shutdown
+        if src.below(6) == 0 { return self.run_workers(src, ctx, plan); }
         let mut next = 0u64;
         let mut ops: Vec<Op> = Vec::new();
         let raw = src.list(14, 7, 8, |s| s.weighted(&[5, 3, 2]));
